@@ -29,7 +29,7 @@ func unmarshal(b []byte, m gproto.Message) error { return gproto.Unmarshal(b, m)
 // Fault is one action of the fault plan, taken when the n-th inter-node call happens.
 type Fault struct {
 	At      int
-	Kind    string // tick | kill | killjob | savepoint | tickkill (a tick, and a kill Who calls behind it)
+	Kind    string // tick | kill | killjob | savepoint | tickkill (a tick, and a kill Who calls behind it) | pubkill (a tick whose completed checkpoint is published late: a worker is killed first, the publication happens while the job deploys the recovery)
 	Retries int    // (bookkeeping of a tick that found a checkpoint in progress and comes back)
 	Who     int
 }
@@ -60,6 +60,7 @@ type Stats struct {
 	CkptsBeforeEnd                                                          int // snapshots in storage when all input had been processed
 	WMTicks                                                                 int // watermark ticks of the source runners (harness-driven)
 	HandlerPanics                                                           []string
+	PubDuringRecovery                                                       int // checkpoints whose publication was held until the job was deploying the recovery from a failure
 }
 
 func buildData(p Program) (map[string][]Rec, map[string]int) {
@@ -149,7 +150,17 @@ func Run(p Program, c *hx.Case) (st Stats, err error) {
 	pending := append([]Fault(nil), p.Faults...)
 	sort.SliceStable(pending, func(i, j int) bool { return pending[i].At < pending[j].At })
 	idx := 0
+	var onDeploy func() // runs once, in the first deploy call that follows (the job waits in that call)
 	w.Gate = func(n int, kind, from, to string) {
+		if kind == "deploy-op" {
+			w.mu.Lock()
+			f := onDeploy
+			onDeploy = nil
+			w.mu.Unlock()
+			if f != nil {
+				f()
+			}
+		}
 		w.mu.Lock()
 		for idx < len(pending) && pending[idx].At <= n {
 			select {
@@ -200,7 +211,7 @@ settle:
 		select {
 		case f := <-actions:
 			switch f.Kind {
-			case "tick", "tickkill":
+			case "tick", "tickkill", "pubkill":
 				// The job's timer retries a tick that finds a checkpoint in progress one
 				// second later; with frozen time that retry is the harness's: the tick
 				// comes back a few calls later (a bounded number of times).
@@ -221,6 +232,61 @@ settle:
 					sort.SliceStable(rest, func(i, j int) bool { return rest[i].At < rest[j].At })
 				}
 				w.mu.Unlock()
+				if f.Kind == "pubkill" {
+					// The checkpoint completes, but the goroutine that publishes it gets
+					// going late: first the assembly is lost, and the publication happens
+					// while the job deploys the recovery.
+					held, release := make(chan uint64, 1), make(chan struct{})
+					var first atomic.Bool
+					w.mu.Lock()
+					w.PubHook = func(id uint64) {
+						if first.CompareAndSwap(false, true) {
+							held <- id
+							<-release
+						}
+					}
+					w.mu.Unlock()
+					w.Tick()
+					st.Ticks++
+					select {
+					case id := <-held:
+						w.mu.Lock()
+						w.PubHook = nil
+						onDeploy = func() {
+							close(release)
+							WaitFor(2*time.Second, func() bool {
+								sn := w.Snapshots()
+								return len(sn) > 0 && sn[len(sn)-1] >= id
+							})
+							time.Sleep(300 * time.Microsecond)
+						}
+						w.mu.Unlock()
+						st.PubDuringRecovery++
+						select {
+						case actions <- Fault{Kind: "kill", Who: f.Who}:
+						default:
+						}
+						// if no deployment follows (the input ran out first), the publication goes ahead anyway
+						go func() {
+							time.Sleep(3 * time.Second)
+							w.mu.Lock()
+							f := onDeploy
+							onDeploy = nil
+							w.mu.Unlock()
+							if f != nil {
+								f()
+							}
+						}()
+					case <-time.After(400 * time.Millisecond):
+						// the checkpoint did not complete (or none was started): nothing is held
+						w.mu.Lock()
+						w.PubHook = nil
+						w.mu.Unlock()
+						first.Store(true)
+						close(release)
+					}
+					break
+				}
 				w.Tick()
 				st.Ticks++
 			case "wmtick":
@@ -772,6 +838,12 @@ func GenProgram(rt *rapid.T, faults []string, maxFaults int) Program {
 		} else {
 			p.Faults[1] = Fault{At: b, Kind: "tick"}
 		}
+	}
+	if nf >= 1 && len(faults) >= 2 && faults[max(0, len(faults)-2)] == "kill" && rapid.IntRange(0, 3).Draw(rt, "pubkill") == 0 {
+		// a checkpoint that completes but is published late: the failure comes
+		// first, the publication happens while the job deploys the recovery
+		a := rapid.IntRange(2*p.Cfg.Workers+2, max(2*p.Cfg.Workers+3, span/2)).Draw(rt, "pubkillat")
+		p.Faults[len(p.Faults)-1] = Fault{At: a, Kind: "pubkill", Who: rapid.IntRange(0, 3).Draw(rt, "who3")}
 	}
 	// watermark ticks of the source runners, anywhere among the calls (they are not
 	// faults and do not count against the fault budget)
